@@ -12,15 +12,16 @@ import (
 
 // FuncCFG wraps a go/cfg graph of one function body (or function literal body).
 type FuncCFG struct {
-	G       *cfg.CFG
-	Body    *ast.BlockStmt
-	Info    *types.Info
-	ctx     *Ctx
-	where   map[ast.Node]loc // top-level block nodes
-	idom    []int
-	preds   [][]int32
-	domsets []map[int32]bool
-	reach   []bool
+	G         *cfg.CFG
+	Body      *ast.BlockStmt
+	Info      *types.Info
+	ctx       *Ctx
+	where     map[ast.Node]loc // top-level block nodes
+	idom      []int
+	preds     [][]int32
+	domsets   []map[int32]bool
+	reach     []bool
+	dimFilter []string
 }
 
 type loc struct {
